@@ -118,10 +118,11 @@ func HarnessPanicHTTP() {
 }
 
 type C struct {
-	Boom func(a int) (int, error)
-	Fine func(a int) (int, error)
-	Slow func(ctx context.Context, a int) (int, error)
-	Sub  func(ctx context.Context) (<-chan int, error)
+	Boom    func(a int) (int, error)
+	Fine    func(a int) (int, error)
+	Slow    func(ctx context.Context, a int) (int, error)
+	Sub     func(ctx context.Context) (<-chan int, error)
+	BoomSub func(ctx context.Context) (<-chan int, error)
 }
 
 type WH struct {
@@ -130,6 +131,9 @@ type WH struct {
 }
 
 func (h *WH) Slow(ctx context.Context, a int) (int, error) { <-h.release; return a, nil }
+
+// BoomSub is a channel-returning method that panics before returning its channel.
+func (h *WH) BoomSub(ctx context.Context) (<-chan int, error) { panic("sub:" + h.msg) }
 func (h *WH) Sub(ctx context.Context) (<-chan int, error) {
 	out := make(chan int)
 	go func() {
@@ -179,6 +183,13 @@ func HarnessPanicWS() {
 		}
 		chClosed++
 	}()
+	if verif.Bool("panic_in_channel_method") {
+		bch, berr := c.BoomSub(context.Background())
+		verif.Assert(berr != nil && bch == nil, "panicking-channel-method-gets-error")
+		if berr != nil {
+			verif.Assert(strings.Contains(berr.Error(), "panic"), "error-mentions-panic")
+		}
+	}
 	_, perr := c.Boom(x)
 	verif.Assert(perr != nil, "panicking-call-gets-error")
 	if perr != nil {
